@@ -175,7 +175,9 @@ def search_reachability(ctx, pdb, per_cell=False):
                     raise Uncertified("find_in_products compares the key with a key-dependent value", pdb.where(key))
                 cmp_nodes.append(o)
             elif p_[0] == "ite" and p_[1] is not katom:
-                pass
+                # the key selected against something else (clamped, defaulted) and then used: what is compared later is
+                # no longer the key, and the cells of the key would not be the cells of that value
+                raise Uncertified("find_in_products transforms the key before using it (a selection between the key and another value)", pdb.where(key))
             else:
                 raise Uncertified("find_in_products uses the key other than in comparisons (%s)" % (p_[1] if p_[0] in ("bin", "call", "un") else p_[0]), pdb.where(key))
     if len(tables) != 1:
@@ -462,6 +464,13 @@ def premise_search(ctx, rule="S", want_gap=False, pdb=None, label=""):
         rep.uncertified(rule + label, u.what, u.where or pdb.where(FIP))
         return None
     rep.fn(FIP)
+    # the table the search walks is the product table the other premises read (the values are looked up in VALUES at
+    # the index found here, and the residual fold interprets the search on lookups::PRODUCTS)
+    try:
+        same_tbl = list(res.table) == list(pdb.const_val("lookups::PRODUCTS"))
+    except Uncertified:
+        same_tbl = False
+    rep.ob(rule + ".table" + label, "lookups::PRODUCTS", same_tbl, "find_in_products searches a table that is not lookups::PRODUCTS (cell for cell)", pdb.where(FIP))
     hit, gap = report_search(ctx, res, rule + ".hit" + label, rule + ".gap" + label, pdb.where(FIP), want_gap)
     if ctx.tier == "thorough":
         try:
@@ -1710,7 +1719,7 @@ def decide_update(ctx, ob, path, where, Tv, Th, bname, xname, cnames, onames, fi
     ob("value-only-update", short(path), not stray,
        "the new best value depends on %s besides the best so far and the ranking of the current candidate (state carried between iterations, or the candidate's words read directly)" % stray, where)
     if stray:
-        return False
+        return False        # (a failed value-only-update is always recorded, whatever clauses the caller asked for)
     dags = [Tv]
     if Th is not None:
         stray_h = sorted(set(atoms_of(Th)) - {bname, xname} - set(cnames) - set(onames))
@@ -1775,7 +1784,7 @@ def bestof_loop(ctx, path, n, rule, need):
         if name == "loop-shape" and not ok:
             # the best-of analysis needs one candidate loop (or one reduction); anything else is not certified
             return rep.ob(rule + "." + name, inst, ok, "UNCERTIFIED: " + detail + " — the best-of rule cannot be applied to this shape", where_)
-        if name in need or name == "loop-shape" or (not ok and name in ("result", "result-is-running-best", "ranks-one-candidate", "candidate-is-five")):
+        if name in need or name == "loop-shape" or (not ok and name in ("result", "result-is-running-best", "ranks-one-candidate", "candidate-is-five", "no-early-exit", "value-only-update")):
             # structural prerequisites of every other clause are always recorded when they fail
             return rep.ob(rule + "." + name, inst, ok, detail, where_)
         return ok
@@ -1919,7 +1928,10 @@ def bestof_loop(ctx, path, n, rule, need):
     calls = [x for x in walk(best2) if x[0] == "call" and x[1] == "fn:" + k5v]
     calls_h = [x for x in walk(hand2) if x[0] == "call" and x[1] == "fn:" + k5v] if hand2 is not None else []
     ok_one = len({id(x) for x in calls + calls_h}) == 1
-    ob("ranks-one-candidate", short(path), ok_one, "an iteration ranks %d distinct candidate hands (must rank exactly the selected one, once)" % len({id(x) for x in calls + calls_h}), where)
+    ncalls_ = len({id(x) for x in calls + calls_h})
+    ob("ranks-one-candidate", short(path), ok_one,
+       ("UNCERTIFIED: no call of Five::hand_rank_value() is found in an iteration — the candidates are ranked some other way (e.g. through hand_rank_value_and_hand() directly), which the best-of rule does not follow"
+        if ncalls_ == 0 else "an iteration ranks %d distinct candidate hands (must rank exactly the selected one, once)" % ncalls_), where)
     if not ok_one:
         return None
     X = calls[0]
@@ -1950,7 +1962,11 @@ def bestof_loop(ctx, path, n, rule, need):
             for j, x in enumerate(cs):
                 g = substitute(x, lambda nd: pm.get(nd[1]) if nd[0] == "atom" else None)
                 okp = okp and g is atom("s%d" % rowv[j], "u32")
-    ob("candidate-from-row", short(path), okp, "the ranked candidate is not made of plain copies of the receiver's slots named by the current table row", where)
+    reordered = (not okp) and cs is not None and any(any(y[0] == "call" and y[1] == "kth" for y in walk(x)) for x in cs)
+    ob("candidate-from-row", short(path), okp,
+       ("UNCERTIFIED: the candidates are taken from a rearranged (sorted) copy of the hand, not from the receiver's slots; the best-of rule only follows plain copies of slots"
+        if reordered else "the ranked candidate is not made of plain copies of the receiver's slots named by the current table row"), where)
+    ob("candidate-distinct-slots", short(path), all(len(set(r_)) == 5 for r_ in got_rows), "a row of the combination table repeats a slot", where)
     for o in body_obs:
         pass
     rep.sample({"rule": rule, "container": short(path), "loop_header_block": h, "carried_locals": carried,
